@@ -34,7 +34,7 @@ RULE = (
     "(identity, Any, unions, parameterised generics, subclassing); a drawn subset also end-to-end through a two-node strict "
     "graph. Non-trivial A = flaw not in the first node / first slot; B = verdict not decided by identity or Any."
 )
-ASSUMPTIONS = ["no verdict is demanded for an incoming Any, numeric-tower promotion, Ellipsis tuples or TypeVars (outside the documented constructors)"]
+ASSUMPTIONS = ["the rule list is read as closed: an incoming Any satisfies only a required Any (the documented Any rule is explicitly one-sided)", "no verdict is demanded for numeric-tower promotion, Ellipsis tuples or TypeVars (outside the documented constructors)"]
 
 
 # ------------------------------------------------------------------------------------
@@ -59,7 +59,7 @@ def universe():
         u += [list[t], dict[str, t], collections.abc.Sequence[t]]
     for a, b in [(int, str), (str, int), (A, B), (B, A), (int, int), (object, int), (bool, int), (int, bool), (A, A), (B, B), (str, str), (bytes, str)]:
         u.append(tuple[a, b])
-    u += [tuple[int], tuple[int, str, int], dict[int, str], dict[str, list], list[list]]
+    u += [tuple[int], tuple[int, str, int], dict[int, str], dict[str, list], list[list], list[Any], dict[str, Any], tuple[Any, int], Union[int, Any]]
     pairs = [(int, str), (int, type(None)), (A, B), (B, str), (bool, bytes), (str, type(None)), (A, int), (B, type(None)), (object, str), (bytes, int), (bool, str), (A, type(None))]
     for a, b in pairs:
         u.append(Union[a, b])
@@ -81,7 +81,12 @@ def compat(a, b):
     if b is Any:
         return True
     if a is Any:
-        return None
+        # the documented rule is one-sided ("Any as required accepts anything"): read as a closed list, an incoming Any
+        # satisfies only a required Any (handled above), directly or as a member of a required union
+        if b is object:
+            return None  # every value is an object; the rule list does not say which reading wins
+        if not _is_union(b):
+            return False
     if _is_union(a):
         vs = [compat(m, b) for m in get_args(a)]
         if any(v is False for v in vs):
@@ -203,6 +208,7 @@ def _case(draw, tier):
     else:
         nodes, _ = draw(gen.g2_nodes(max_nodes=5, p_fail=0.0, p_cycle=0.2, p_signal=0.3, min_gates=1, max_gates=3))
     return {"part": "A", "nodes": nodes, "flaw": flaw, "nested": prob(draw, 0.3), "via_add_nodes": prob(draw, 0.3),
+            "present": draw(st.sampled_from([None, None, "swap", "wrap"])) if flaw in PRESENTABLE else None,
             "bad_name": draw(st.sampled_from(["class", "for", "END", "not-an-identifier", "1abc", "has space"])), "sep": draw(st.sampled_from([".", "/"]))}
 
 
@@ -210,8 +216,50 @@ def strategy(tier):
     return _case(tier)
 
 
-def _construct(ctx, nodes, *, name=None, edges=None, strict=False, nested=False, via_add_nodes=False):
+PRESENTABLE = ("default_in_one_only", "different_defaults", "strict_incompatible", "strict_missing_annotation")
+
+
+def _present(nodes, mode):
+    """The same program with its function nodes declared in a roundabout way (external names, defaults and types unchanged):
+    swap = the function's first two parameters carry each other's names and ONE with_inputs call swaps them back;
+    wrap = the node sits alone in a nested graph under inner parameter names, and the wrapper's inputs are renamed back."""
+    out = []
+    for n in nodes:
+        if n["k"] != "func" or n.get("renames") or n.get("rename_inputs"):
+            out.append(n)
+            continue
+        ps = n.get("params", [])
+        if mode == "swap" and len(ps) >= 2:
+            a, b = ps[0], ps[1]
+            sw = {a: b, b: a}
+            m = dict(n)
+            m["params"] = [sw.get(x, x) for x in ps]
+            m["defaults"] = {sw.get(k, k): v for k, v in n.get("defaults", {}).items()}
+            if n.get("ann"):
+                m["ann"] = {sw.get(k, k): v for k, v in n["ann"].items()}
+            m["renames"] = [{"kind": "inputs", "map": {a: b, b: a}}]
+            m["fid"] = n.get("fid", n["name"]) + "~swapped"
+            out.append(m)
+        elif mode == "wrap" and ps and not n.get("emit") and not n.get("wait_for"):
+            inn = {p_: p_ + "_in" for p_ in ps}
+            core = dict(n)
+            core["name"] = n["name"] + "_core"
+            core["fid"] = n.get("fid", n["name"]) + "~core"
+            core["params"] = [inn[x] for x in ps]
+            core["defaults"] = {inn[k]: v for k, v in n.get("defaults", {}).items() if k in inn}
+            if n.get("ann"):
+                core["ann"] = {inn.get(k, k): v for k, v in n["ann"].items()}
+            out.append({"k": "graph", "name": n["name"], "graph": {"nodes": [core], "name": n["name"]}, "outs": list(n.get("outs", [])), "params": list(ps),
+                        "renames": [{"kind": "inputs", "map": {v: k for k, v in inn.items()}}]})
+        else:
+            out.append(n)
+    return out
+
+
+def _construct(ctx, nodes, *, name=None, edges=None, strict=False, nested=False, via_add_nodes=False, present=None):
     """Build the graph (optionally with the node list inside a nested graph, optionally the last node through add_nodes)."""
+    if present:
+        nodes = _present(nodes, present)
     gspec = {"nodes": nodes, "name": name, "edges": edges, "strict": strict}
     if nested:
         inner = dict(gspec)
@@ -268,6 +316,9 @@ def _part_a(case, ev):
         labels.add("inside_nested_graph")
     if via_add:
         labels.add("via_add_nodes")
+    present = case.get("present")
+    if present:
+        labels.add("declared_via:" + present)
     ctx = Ctx(compact=True)
     # the unflawed graph must be constructible, else the draw is outside the domain
     try:
@@ -275,6 +326,9 @@ def _part_a(case, ev):
     except Exception as e:  # noqa: BLE001
         ev.discard("base_invalid:" + type(e).__name__)
         return
+    if present:
+        # the roundabout declaration of a VALID program must be accepted as well (the repaired graph is accepted)
+        _expect_accepted(f"{flaw} baseline [declared via {present}]", lambda: _construct(Ctx(compact=True), nodes, nested=nested, present=present))
     sites = 0
     later_site = False
     gates = [i for i, n in enumerate(nodes) if n["k"] in ("ifelse", "route")]
@@ -293,7 +347,7 @@ def _part_a(case, ev):
         if via_add and last is not None:
             # the node that completes the mistake is the one handed to add_nodes()
             flawed_nodes = [n for n in flawed_nodes if n["name"] != last] + [n for n in flawed_nodes if n["name"] == last]
-        _expect_rejected(f"{flaw} {tag}", lambda: _construct(ctx2, flawed_nodes, nested=nested, via_add_nodes=via_add and "edges" not in kw, **kw))
+        _expect_rejected(f"{flaw} {tag}" + (f" [declared via {present}]" if present else ""), lambda: _construct(ctx2, flawed_nodes, nested=nested, via_add_nodes=via_add and "edges" not in kw, present=present, **kw))
 
     if flaw == "unknown_gate_target":
         for gi in gates:
@@ -386,7 +440,7 @@ def _part_a(case, ev):
             return
         ann = _annotate(nodes)
         ctx2 = Ctx(compact=True)
-        _expect_accepted(f"{flaw} annotated baseline", lambda: _construct(ctx2, ann, strict=True, nested=nested))
+        _expect_accepted(f"{flaw} annotated baseline", lambda: _construct(ctx2, ann, strict=True, nested=nested, present=present))
         prodmap = {o: i for i, n in enumerate(ann) for o in n["outs"]}
         edges = [(prodmap[p], ci, p) for ci, n in enumerate(ann) for p in n["params"] if p in prodmap]
         if flaw == "strict_ordering_edge_ok":
